@@ -227,9 +227,11 @@ def program_source(cases):
 
 
 class TermBV(str):
-    """An Int term that also has a bit-vector view (attribute bv, width w) with the same two's-complement pattern."""
+    """An Int term that also has a bit-vector view (attribute bv, width w) with the same two's-complement pattern, and/or a condition
+    (negz) under which the JavaScript number is -0 rather than +0 (only visible when the value is used as a double)."""
     bv = None
     w = 0
+    negz = None
 
 
 def obs_term(a):
@@ -242,9 +244,11 @@ def obs_term(a):
             t.bv, t.w = '(concat %s %s)' % (h['bv32'], l['bv32']), 64
         return t, 'int'
     if 'i' in a:
-        if a.get('bv32'):
+        if a.get('bv32') or a.get('negz'):
             t = TermBV(a['i'])
-            t.bv, t.w = a['bv32'], 32
+            if a.get('bv32'):
+                t.bv, t.w = a['bv32'], 32
+            t.negz = a.get('negz')
             return t, 'int'
         return a['i'], 'int'
     if 'b' in a:
@@ -262,7 +266,10 @@ def f64_of(term, kind):
     if kind == 'f64':
         return term
     if kind == 'int':
-        return '((_ to_fp 11 53) RNE ((_ int2bv 66) %s))' % term       # observed integers are Go integers of at most 64 bits
+        conv = '((_ to_fp 11 53) RNE ((_ int2bv 66) %s))' % term       # observed integers are Go integers of at most 64 bits
+        if getattr(term, 'negz', None):
+            return '(ite %s (fp.neg ((_ to_fp 11 53) RNE 0.0)) %s)' % (term.negz, conv)
+        return conv
     raise ValueError(kind)
 
 
